@@ -261,6 +261,8 @@ def fill_command(chk, tier, rng):
              ("hexagonal", ["c11", "c12"], dict(ignore_residuals=False, ignore_rank=True, drop_atol=1e-6))]
     if tier != "quick":
         cases.append(("trigonal6", ["c11", "c12", "c13", "c14", "c33", "c44"], dict(ignore_residuals=True, ignore_rank=False, drop_atol=1e-8)))
+    # column spellings the static-table reader accepts (prefix with underscore, four-index form)
+    cases.append(("cubic", ["C_11", "c12", "c2323"], dict(ignore_residuals=False, ignore_rank=False, drop_atol=1e-8)))
     for system, cols, opts in cases:
         name = "cij fill -s %s %s" % (system, " ".join("--%s %s" % (k.replace("_", "-"), v) for k, v in opts.items() if v not in (False, 1e-8)))
         ctx = new_context()
@@ -353,6 +355,15 @@ def fill_command(chk, tier, rng):
             replay_fill_command(chk, system, cols, opts, fails[0])
 
 
+def canon_col(c):
+    d = "".join(ch for ch in c if ch.isdigit())
+    if len(d) == 4:
+        v = {(1, 1): 1, (2, 2): 2, (3, 3): 3, (2, 3): 4, (1, 3): 5, (1, 2): 6}
+        a, b = v[tuple(sorted((int(d[0]), int(d[1]))))], v[tuple(sorted((int(d[2]), int(d[3]))))]
+        d = "%d%d" % tuple(sorted((a, b)))
+    return "c" + d
+
+
 def replay_fill_command(chk, system, cols, opts, what):
     from click.testing import CliRunner
     import cij.cli.fill as cf
@@ -362,7 +373,8 @@ def replay_fill_command(chk, system, cols, opts, what):
     vals = {"c11": [300.0, 320.0], "c12": [100.0, 110.0], "c13": [90.0, 95.0], "c14": [10.0, 11.0], "c33": [280.0, 300.0], "c44": [80.0, 85.0]}
     if opts.get("drop_atol", 1e-8) != 1e-8:
         vals["c12"] = [300.0 - 1e-7, 320.0 - 1e-7]       # (c11 - c12)/2 lies between the default and the requested drop tolerance
-    lines = ["comment", "400.000 2 123.456", "V " + " ".join(cols)] + ["%.3f " % v + " ".join("%.9f" % vals[c.lower()][i] for c in cols) for i, v in enumerate((400.0, 380.0))]
+    spelled = any(canon_col(c) != c.lower() for c in cols)
+    lines = ["comment", "400.000 2 123.456", "V " + " ".join(cols)] + ["%.3f " % v + " ".join("%.9f" % vals[canon_col(c)][i] for c in cols) for i, v in enumerate((400.0, 380.0))]
     tail = ["", "lattice parameters", "5.1 5.2 5.3", "5.0 5.1 5.2"]
     fn = os.path.join(tempfile.gettempdir(), "c17_fillr_%d.dat" % os.getpid())
     with open(fn, "w") as fp:
@@ -371,7 +383,11 @@ def replay_fill_command(chk, system, cols, opts, what):
         args = [fn, "-s", system] + (["--ignore-rank"] if opts.get("ignore_rank") else []) + (["--ignore-residuals"] if opts.get("ignore_residuals") else []) + ["--drop-atol", repr(opts.get("drop_atol", 1e-8))]
         r = CliRunner().invoke(cf.main, args)
         if r.exit_code != 0:
-            chk.violation("fill-command:raises", "cij fill %s fails: %r" % (" ".join(args[1:]), r.exception), dict(lines=lines))
+            if spelled:
+                chk.violation("fill-command:column-spellings", "cij fill %s fails with %r on a static table whose columns are spelled %s (spellings the "
+                              "static-table reader accepts)" % (" ".join(args[1:3]), r.exception, cols), dict(lines=lines))
+            else:
+                chk.violation("fill-command:raises", "cij fill %s fails: %r" % (" ".join(args[1:]), r.exception), dict(lines=lines))
             return
         outl = r.output.splitlines()
         if outl[:2] != lines[:2] or outl[-len(tail):] != tail:
@@ -387,7 +403,7 @@ def replay_fill_command(chk, system, cols, opts, what):
         import warnings
         with warnings.catch_warnings():
             warnings.simplefilter("ignore")
-            want = F.fill_cij(pandas.DataFrame(dict([("V", [400.0, 380.0])] + [(c, vals[c.lower()]) for c in cols])), system=system, **opts)
+            want = F.fill_cij(pandas.DataFrame(dict([("V", [400.0, 380.0])] + [(canon_col(c), vals[canon_col(c)]) for c in cols])), system=system, **opts)
         for i in range(2):
             got = {("c%d%d" % k.v): v for k, v in back.volumes[i].static_elastic_modulus.items()}
             if sorted(got) != sorted(c.lower() for c in want.columns if c != "V"):
